@@ -138,9 +138,13 @@ def impl_settings(ps):
     plain = all(ps.get(k) is None for k in ("key", "xkw", "amorphkey")) and spec.get("fn") not in ("above", "below")
     t = "T ok"
     if plain:
-        direct = specs.build_indicator(spec, [])
-        if _state(direct) != _state(obj):
-            t = "T bad:object-path " + _state(direct) + " | " + _state(obj)
+        try:
+            direct = specs.build_indicator(spec, [])
+        except Exception as e:  # noqa  (the dict path built an object from keywords the constructor rejects)
+            t = f"T bad:object-path raises {_kind(e)} | " + _state(obj)
+        else:
+            if _state(direct) != _state(obj):
+                t = "T bad:object-path " + _state(direct) + " | " + _state(obj)
     out.append(t)
     return out
 
